@@ -70,6 +70,7 @@ func init() {
 		{"passthru-ctx-slice", "C01.passthru", ctx, "n, rErr = r.rs.Read(p)", "n, rErr = r.rs.Read(p[:len(p)/2])", "ctxreadseeker.Reader).Read"},
 		// extended existing rules
 		{"clone-limit-shares-reader", "C01.clone", lim, "return &LimitReader{r: rc, n: r.n}, nil", "_ = rc\n\treturn &LimitReader{r: r.r, n: r.n}, nil", "LimitReader).CloneReader:r"},
+		{"ahead-current-delegated", "C01.ahead", ahd, "\tcase io.SeekCurrent:\n\t\tabsOff = r.offset + offset\n\tcase io.SeekEnd:\n", "\tcase io.SeekCurrent, io.SeekEnd:\n", "not-current"},
 		{"ahead-hit-no-advance", "C01.ahead", ahd, "\t\t\tr.offset += copyLen\n", "", "Read:hit-advance"},
 		{"ahead-hit-return", "C01.ahead", ahd, "return int(copyLen), nil", "return int(d), nil", "Read:hit-return"},
 	} {
